@@ -447,3 +447,132 @@ def body_cell_bounding(rec, **c):
 
 CHECKS.append(Check("acceptance_cell_bounding", _unwrap(body_cell_bounding), lambda: {"c": cell_bounding_case()},
                     quick=1000, thorough=8000, quick_shards=4))
+
+
+# ------------------------------------------------------------------------------------------------ root mode (summed bound)
+
+def make_root_mode_state(positions, charges, moving_root, velocity, ts, sliced=True):
+    """Two composite objects with two leaves each; all leaves of `moving_root` (and the root itself) move."""
+    from jellyfysh.base.node import Node
+    from jellyfysh.base.unit import Unit
+    from jellyfysh.base.time import Time
+    nodes = []
+    k = 0
+    for r in range(2):
+        moving = (r == moving_root)
+        kids = []
+        for ch in range(2):
+            kids.append(Node(Unit((r, ch), list(positions[k]), {"q": charges[k]}, list(velocity) if moving else None,
+                                  Time(*ts) if moving else None), weight=0.5))
+            k += 1
+        rp = [(a + b) / 2 for a, b in zip(kids[0].value.position, kids[1].value.position)]
+        root = Node(Unit((r,), rp, None, list(velocity) if moving else None, Time(*ts) if moving else None), weight=1)
+        for kid in kids:
+            root.add_child(kid)
+        nodes.append(root)
+    return nodes
+
+
+@st.composite
+def root_mode_case(draw):
+    c = draw(composite_case())
+    c["moving_root"] = draw(st.integers(0, 1))
+    c["expos"] = [draw(gen.log_uniform(1e-2, 3.0)) for _ in range(4)]
+    return c
+
+
+def body_root_mode(rec, **c):
+    import jellyfysh.setting as setting
+    from jellyfysh.setting import hypercubic_setting
+    from .C03 import ensure_ewald
+    ensure_ewald()
+    setting.reset()
+    hypercubic_setting.HypercubicSetting(beta=1.0, dimension=3, system_length=1.0)
+    setting.set_number_of_root_nodes(2)
+    setting.set_number_of_nodes_per_root_node(2)
+    setting.set_number_of_node_levels(2)
+    import jellyfysh.event_handler.root_unit_active_two_composite_object_summed_bounding_potential_event_handler as mod_h
+    from jellyfysh.potential.inverse_power_coulomb_bounding_potential import InversePowerCoulombBoundingPotential
+    from jellyfysh.potential.merged_image_coulomb_potential import MergedImageCoulombPotential
+    bound = InversePowerCoulombBoundingPotential()
+    handler = mod_h.RootUnitActiveTwoCompositeObjectSummedBoundingPotentialEventHandler(
+        potential=MergedImageCoulombPotential(), bounding_potential=bound, charge="q")
+    d = c["direction"]
+    v = [0.0, 0.0, 0.0]
+    v[d] = 1.0
+    mr = c["moving_root"]
+
+    def attempt(u):
+        nodes = make_root_mode_state(c["positions"], c["charges"], mr, v, c["ts"])
+        s_h = Scripted(expos=list(c["expos"]), uniforms=[u], strict=False)
+        old = mod_h.random
+        mod_h.random = s_h
+        try:
+            t, ids = handler.send_event_time(nodes)
+            drew = 4 - len(s_h.expos)
+            fresh = make_root_mode_state(c["positions"], c["charges"], mr, v, c["ts"])
+            lv = leaves(nodes)
+            local = [x for x in lv if x.value.identifier[0] == mr]
+            target = [x for x in lv if x.value.identifier[0] != mr]
+            pairs = [(setting.periodic_boundaries.separation_vector(a.value.position, b.value.position),
+                      a.value.charge["q"] * b.value.charge["q"]) for a in local for b in target]
+            out = handler.send_out_state(fresh)
+        finally:
+            mod_h.random = old
+        return t, drew, pairs, velocities(out)
+
+    t, drew, pairs, after = attempt(0.5)
+    if drew != 4:
+        rec.fail("root-mode/draw-count", "the candidate time of the root-mode handler consumed %d exponential draws, the "
+                 "minimum over the 4 point-mass pairs needs one independent draw per pair" % drew, c)
+        return
+    if math.isinf(t.quotient):
+        rec.case("root-mode/infinite-candidate", (repr(sorted(c.items())),), False, None)
+        return
+    # candidate time: minimum over the pairs of the bounding displacement for that pair's own draw (the displacement
+    # routine itself is C02's subject; here the composition is checked)
+    lv0 = leaves(make_root_mode_state(c["positions"], c["charges"], mr, v, c["ts"]))
+    local0 = [x for x in lv0 if x.value.identifier[0] == mr]
+    target0 = [x for x in lv0 if x.value.identifier[0] != mr]
+    want = math.inf
+    i = 0
+    for a in local0:
+        for b in target0:
+            sep = setting.periodic_boundaries.separation_vector(a.value.position, b.value.position)
+            want = min(want, bound.displacement(v, sep, a.value.charge["q"], b.value.charge["q"], c["expos"][i]))
+            i += 1
+    got = (t.quotient - c["ts"][0]) + (t.remainder - c["ts"][1])
+    if abs(got - want) > 1e-9 * max(want, 1e-12) + 1e-13:
+        rec.fail("root-mode/candidate-time", "candidate time displacement %r, minimum over the pairs of their bounding "
+                 "displacements is %r" % (got, want), c)
+    if any(any(math.isnan(x) for x in sep) or math.hypot(*sep) < 1e-9 for sep, _ in pairs):
+        rec.exclude("candidate lands on the singularity (attractive head-on)")
+        return
+    qt = sum(oracle_rates(1.0, sep, d, cc, 1.0)[0] for sep, cc in pairs)
+    qb = sum(max(0.0, oracle_rates(1.0, sep, d, cc, 1.0)[1]) for sep, cc in pairs)
+    if not qb > 0.0:
+        rec.fail("root-mode/candidate-without-bound-rate", "candidate with summed bounding rate %r" % qb, c)
+        return
+    thr = max(0.0, qt) / qb
+    if thr > 1.0 + 1e-9:
+        rec.fail("root-mode/summed-bound-exceeded", "summed true rate %r exceeds the summed bounding rate %r" % (qt, qb), c)
+        return
+    lo, hi = thr * (1 - 1e-7) - 1e-9, thr * (1 + 1e-7) + 1e-9
+    for u, expect in ((lo, True), (hi, False)):
+        if not 0.0 < u < 1.0:
+            continue
+        _, _, _, a = attempt(u)
+        moving = sorted(x[0] for x in a if x[1] is not None)
+        handed = moving == [(1 - mr, 0), (1 - mr, 1)]
+        kept = moving == [(mr, 0), (mr, 1)]
+        if not (handed or kept):
+            rec.fail("root-mode/hand-over-shape", "after the event the moving point masses are %r" % (moving,), c)
+        elif handed != expect:
+            rec.fail("root-mode/threshold", "confirmation draw u=%r: velocity %s, but max(0,sum q_true)/sum max(0,q_bound) "
+                     "= %r" % (u, "handed over" if handed else "kept", thr), dict(c, u=u))
+    rec.case("root-mode/%s" % ("interior" if 0 < thr < 1 else "edge"), (repr(sorted(c.items())),), 0 < thr < 1,
+             {"case": c, "threshold": thr})
+
+
+CHECKS.append(Check("acceptance_root_mode", _unwrap(body_root_mode), lambda: {"c": root_mode_case()}, quick=600,
+                    thorough=6000, quick_shards=4))
